@@ -359,6 +359,8 @@ def features(t):
     """optional features a conformant target uses (names the class of a false rejection)"""
     f = []
     root = t["root"]
+    if t["store"] == "storepath":
+        f.append("storepath")
     if is_group(root):
         if child(child(root, "nodes"), "props") is None:
             f.append("no-node-props-group")
@@ -489,7 +491,17 @@ def _observe(t, target, out):
 
     out["vs"] = run_quiet(geff.validate_structure, target)
     if t.get("reader", True) or out["vs"] == "ok":
-        out["reader"] = run_quiet(lambda s: GeffReader(s, validate=True), target)
+        import warnings
+
+        with warnings.catch_warnings():
+            warnings.simplefilter("ignore")
+            try:
+                r = GeffReader(target, validate=True)
+                out["reader"] = "ok"
+                out["reader_names"] = [sorted(r.node_prop_names), sorted(r.edge_prop_names)]
+            except Exception as e:  # noqa: BLE001
+                out["reader"] = exc_class(e)
+        out["reader_nv"] = run_quiet(lambda s: GeffReader(s, validate=False), target)
     if t["store"] in ("path", "nested"):
         from typer.testing import CliRunner
 
@@ -962,9 +974,9 @@ def run(ck: common.Check):
     cases += sv
     ck.extra["store_variants"] = len(sv)
     ck.extra["single_fault_catalogue"] = len(cat)
-    npairs = 800 if ck.quick else 40000
+    npairs = 800 if ck.quick else 24000
     cases += fault_pairs(ck.rng, npairs)
-    nconf = 200 if ck.quick else 4000
+    nconf = 200 if ck.quick else 3000
     cases += [("random-conformant", random_conformant(ck.rng)) for _ in range(nconf)]
     ck.extra["fault_pairs"] = npairs
     ck.extra["random_conformant"] = nconf
@@ -1005,6 +1017,15 @@ def run(ck: common.Check):
                 ck.corr_broken("C04:validateStructure", {"label": label, "target": t}, im["vs"], mo["out"])
             if mo["out"] != want:
                 ck.corr_broken("C04:model-vs-python-oracle", {"label": label, "target": t}, want, mo["out"])
+            # GeffReader.__init__ (theorem C04_reader_outcome); a StorePath argument is the known reader defect
+            if "reader" in im and t["store"] != "storepath":
+                if mo["reader"] != im["reader"]:
+                    ck.corr_broken("C04:readerInit", {"label": label, "target": t}, im["reader"], mo["reader"])
+                elif im["reader"] == "ok" and im["reader_names"] != [mo["node"], mo["edge"]]:
+                    ck.corr_broken("C04:readerInit-names", {"label": label, "target": t}, im["reader_names"], [mo["node"], mo["edge"]])
+                nv_m, nv_i = mo["reader_nv"], im["reader_nv"]
+                if (nv_m == "ok") != (nv_i == "ok") or (nv_m in ("ValueError", "FileNotFoundError") and nv_m != nv_i):
+                    ck.corr_broken("C04:readerInit(validate=False)", {"label": label, "target": t}, nv_i, nv_m)
     ck.extra["metadata_readings_cross_checked"] = n_meta_checked
     ck.assumptions += [
         "zarr-python: Group.get/keys/array_keys/__contains__, open_group(mode='r') and the dtype/shape reported for "
@@ -1018,6 +1039,10 @@ def run(ck: common.Check):
 
 
 def replay(rp):
+    if "case" not in rp:   # a replay of a broken proof obligation / correspondence: nothing to run on the code
+        print(json.dumps(rp.get("no_longer_checks", rp), default=str)[:3000])
+        print("REPLAY: no failing input was found; the named obligation / correspondence no longer checks")
+        return 1
     c = rp["case"]
     t = c["target"]
     im = impl_obs(t)
